@@ -67,7 +67,7 @@ def engine(pid, what, ref):
 
 engine("C01", "Worker limit and distinct worker slots per step.", "5/C01")
 engine("C02", "Exactly-once delivery to every accepting step, targets honoured, wait results not re-delivered, UnhandledEvent exactly for orphans.", "5/C02")
-engine("C12", "ctx.to_dict -> JSON -> Context.from_dict at EVERY prefix of explored schedules vs the uninterrupted continuation, a second pause on the resumed run; stability of the serialized form; PauseResume action of Engine.tla (Act_C12_* properties, replayed on the real engine); CtxLife.tla (context life cycle across runs).", "5/C12")
+engine("C12", "ctx.to_dict -> JSON -> Context.from_dict at EVERY prefix of explored schedules vs the uninterrupted continuation, a second pause on the resumed run; stability of the serialized form; PauseResume action of Engine.tla (Act_C12_* properties incl. NoDoubleStart, replayed on the real engine); two invocations waiting under their own waiter ids; CtxLife.tla (context life cycle across runs).", "5/C12")
 engine("C31", "Timeout names the active steps and never hits a finished run; cancel stops further steps; cancelled context serializable and resumable.", "5/C31")
 engine("C03", "Queued work runs at full capacity; idle announced only when nothing can happen without external input.", "5/C03")
 engine("C05", "Retry budgets: executions = max(n,1), non-retryable once, stop_after_delay by real elapsed time, retry_info numbering, reported attempts/elapsed.", "5/C05")
@@ -95,7 +95,8 @@ reg("C13", "model_checking",
     "persist-then-execute-commands; replay discarding commands) for all crash points of a staged pipeline: the intended design "
     "satisfies 'no accepted work lost / finished run not re-run', the as-coded variant is shown to violate it. On the real "
     "server EVERY persisted tick of several schedules is a crash point: new server on the same SQLite file, resume, run to the "
-    "end; TLC judges each case with Obs_C13 against the uninterrupted reference.",
+    "end; TLC judges each case with Obs_C13 against the uninterrupted reference (a persisted history that cannot be "
+    "replayed at all -- context_from_ticks raises for the run -- is a clause of its own, never attributed to a recorded cause).",
     SERVER_NOTE, SERVER_TECH, "5/C13")
 
 
@@ -286,8 +287,9 @@ reg("C20", "model_checking",
     "results; an edit's commit equals its effect on the store just before); all driver command orders are executed on the "
     "real stores under the virtual loop with tasks gated inside edit_state; TLC validates every execution "
     "(TraceStateStoreConc) and judges serialisability / no-overwrite (Obs_C20).",
-    "2-3 tasks, <=2 operations each; thorough runs the real stores on a sample of the widest instances (TLC checks them "
-    "exhaustively); asyncio.Lock semantics of CPython 3.12.",
+    "2-3 tasks, <=2 operations each; every tier runs the three-task instance 'open edit block / queued whole-state "
+    "replacement / queued second edit' in full on the real stores, thorough a sample of the widest instances (TLC checks "
+    "them exhaustively); asyncio.Lock semantics of CPython 3.12.",
     SCHED_TECH, "5/C20")
 
 
